@@ -1440,11 +1440,21 @@ chkpntedp(uid_t u)
 	return false;
 }
 
+static int chkpnt(void);
+
 static void
 add_chkpnt(uid_t u)
 {
-	if (LIKELY(ichkpnts < countof(chkpnts))) {
-		const size_t i = ichkpnts++;
+	if (chkpntedp(u)) {
+		/* we know about him already */
+		return;
+	} else if (UNLIKELY(ichkpnts + 1U >= countof(chkpnts))) {
+		/* make room by checkpointing the ones we've got,
+		 * never let this one overflow, the dump-everybody routine
+		 * can't know about users whose last task has just gone */
+		(void)chkpnt();
+	}
+	with (const size_t i = ichkpnts++) {
 		chkpnts[i].key = u;
 		NEDTRIE_INSERT(ndtr_t, &chkpntr, chkpnts + i);
 	}
@@ -1618,8 +1628,10 @@ chkpnt(void)
 		rc += chkpnt1(chkpnts[i].key);
 	}
 fin:
-	/* all checkpoints cleared hopefully */
+	/* all checkpoints cleared hopefully,
+	 * the nodes in CHKPNTS are going to be reused so forget them */
 	ichkpnts = 0U;
+	NEDTRIE_INIT(&chkpntr);
 	return rc;
 }
 
